@@ -17,7 +17,7 @@ func init() {
 		Explain: "Decides memo-key completeness of the de-duplication cache that may skip the write of a miniblock's metadata: the stored metadata is a function of (containing block hash and header, miniblock, epoch), " +
 			"so the key that decides 'already recorded, skip' must depend on the block header hash, the miniblock hash and the epoch (the header itself is covered by its hash). Checked by value flow: in " +
 			"recordMiniblock the arguments of hasRecentlyInsertedMiniblockMetadata derive from all three, markMiniblockMetadataAsRecentlyInserted is called with the same arguments, and the key builder's result " +
-			"derives from every one of its parameters (has/mark pass all of theirs to it). A key that omits the block hash keeps reporting a dropped block when the same miniblock is re-recorded in a competing block. " +
+			"derives from every one of its parameters. The skip decision depends on the block hash, the miniblock hash and the epoch; the cache holds ONE entry per (epoch, miniblock) whose value is the block of the latest record (the block hash is the cached value, not part of the key), so a competing record replaces it and returning to an earlier block (B1, B2, B1) is recorded again. " +
 			"Also: a nil result is either a cache hit or follows a checked putMiniblockMetadata, and the entry is marked only after that write. " +
 			"Not decided (schedules/value-level): ordering of pending notarization notifications.",
 		Run: runC46,
@@ -70,39 +70,61 @@ func runC46(c *core.Ctx) {
 		}
 	}
 	c.Check(same, "C46/dedup-key-complete", "historyRepository.recordMiniblock/test-and-mark-same-key", mark[0].Pos(), "the entry is marked under the key it is tested under", "the cache is tested and marked with different arguments")
-	// helper chain
-	for _, hn := range []string{"hasRecentlyInsertedMiniblockMetadata", "markMiniblockMetadataAsRecentlyInserted"} {
-		fn := anchorM(c, pkg, "historyRepository", hn)
-		if fn == nil {
-			continue
-		}
-		bk := callsMatching(fn, pkg, "historyRepository", "buildKeyOfDeduplicationCacheForInsertMiniblockMetadata")
-		ok := len(bk) == 1
-		if ok {
-			args := core.CallOf(bk[0]).Args
-			for _, p := range fn.Params[1:] {
-				found := false
-				for _, a := range args {
-					if a == ssa.Value(p) {
-						found = true
-					}
-				}
-				if !found {
-					ok = false
-				}
+	// helper chain: which inputs the skip decision and the cache entry depend on (followed into
+	// same-package callees precisely: only arguments the callee's result depends on count)
+	hasFn := anchorM(c, pkg, "historyRepository", "hasRecentlyInsertedMiniblockMetadata")
+	markFn := anchorM(c, pkg, "historyRepository", "markMiniblockMetadataAsRecentlyInserted")
+	if hasFn != nil && len(hasFn.Params) == 4 {
+		dep := map[*ssa.Parameter]bool{}
+		for _, r := range core.Returns(hasFn) {
+			for p := range paramDeps(core.RetOperand(r, 0), 0) {
+				dep[p] = true
 			}
 		}
-		c.Check(ok, "C46/dedup-key-complete", hn+"/passes-all-inputs", fn.Pos(), "passes every one of its inputs to the key builder", "does not pass all of its inputs to the key builder")
+		for i, nm := range []string{"block-header-hash", "miniblock-hash", "epoch"} {
+			c.Check(dep[hasFn.Params[i+1]], "C46/dedup-key-complete", "hasRecentlyInserted/depends-on-"+nm, hasFn.Pos(), "the skip decision depends on the "+nm,
+				"the skip decision does not depend on the "+nm+": a record that differs only in it is skipped and lookups keep the stale metadata")
+		}
 	}
-	if fn := anchorM(c, pkg, "historyRepository", "buildKeyOfDeduplicationCacheForInsertMiniblockMetadata"); fn != nil {
-		for _, r := range core.Returns(fn) {
-			reachK := core.BackwardReachPure(core.RetOperand(r, 0))
-			for i, p := range fn.Params[1:] {
-				c.Check(reachK[p], "C46/dedup-key-complete", fmt.Sprintf("buildKey/param#%d(%s)", i+1, p.Name()), fn.Pos(), "the key derives from "+p.Name(), "the key does not depend on "+p.Name())
+	if markFn != nil && len(markFn.Params) == 4 {
+		var put *ssa.CallCommon
+		core.Instrs(markFn, func(in ssa.Instruction) {
+			if cc := core.CallOf(in); cc != nil && cc.IsInvoke() && cc.Method.Name() == "Put" {
+				put = cc
+			}
+		})
+		if put == nil || len(put.Args) < 2 {
+			c.Undecided("C46/dedup-key-complete", "markRecentlyInserted/cache-put", markFn.Pos(), "no Put on the de-duplication cache")
+		} else {
+			kd, vd := paramDeps(put.Args[0], 0), paramDeps(put.Args[1], 0)
+			hdr, mb, ep := markFn.Params[1], markFn.Params[2], markFn.Params[3]
+			c.Check(kd[mb] && kd[ep], "C46/dedup-key-complete", "markRecentlyInserted/key-covers-miniblock-and-epoch", markFn.Pos(), "the cache key derives from the miniblock hash and the epoch",
+				"the cache key does not derive from both the miniblock hash and the epoch")
+			// one entry per (epoch, miniblock) holding the block of the LATEST record: an entry per block
+			// would survive a competing record, and going back to that block would be skipped
+			c.Check(!kd[hdr] && vd[hdr], "C46/latest-record-wins", "markRecentlyInserted/entry-replaced-by-competing-record", markFn.Pos(),
+				"the recording block is the VALUE of the (epoch, miniblock) entry, so a record in a competing block replaces it",
+				fmt.Sprintf("the recording block is part of the cache key (%v) / not the cached value (%v): entries of earlier blocks survive a competing record, so when the chain returns to an earlier block (B1, B2, B1) the third record is skipped and lookups keep reporting B2", kd[hdr], !vd[hdr]))
+		}
+	}
+	// has and mark address the same entry
+	if hasFn != nil && markFn != nil {
+		bkH := callsMatching(hasFn, pkg, "historyRepository", "buildKeyOfDeduplicationCacheForInsertMiniblockMetadata")
+		bkM := callsMatching(markFn, pkg, "historyRepository", "buildKeyOfDeduplicationCacheForInsertMiniblockMetadata")
+		okSame := len(bkH) == 1 && len(bkM) == 1
+		if okSame {
+			ah, am := core.CallOf(bkH[0]).Args, core.CallOf(bkM[0]).Args
+			okSame = len(ah) == len(am)
+			for i := 0; okSame && i < len(ah); i++ {
+				if core.ExprKey(ah[i]) != core.ExprKey(am[i]) {
+					okSame = false
+				}
 			}
 		}
+		c.Check(okSame, "C46/dedup-key-complete", "has-and-mark/same-key-builder", hasFn.Pos(), "test and mark build the key from the same inputs with the same builder", "the test and the mark do not build the cache key the same way")
 	}
 	c.Floor("C46/dedup-key-complete", 9)
+	c.Floor("C46/latest-record-wins", 1)
 	// write before mark, nil only after hit or write
 	hit := core.PruneWhen(func(cd core.Cond) bool { return cd.V == has[0].(ssa.Value) && cd.Taken })
 	mustPassChecked(c, rec, "C46/metadata-written", "historyRepository.recordMiniblock/put", nil,
@@ -161,4 +183,76 @@ func runC46(c *core.Ctx) {
 		}
 	})
 	c.Check(okHH, "C46/metadata-written", "historyRepository.recordMiniblock/header-hash-recorded", rec.Pos(), "MiniblockMetadata.HeaderHash is the containing block's hash", "the stored metadata does not record the containing block's hash")
+}
+
+// paramDeps returns the parameters of v's function that v may depend on, following calls to
+// functions with bodies only through the arguments their result depends on.
+func paramDeps(v ssa.Value, depth int) map[*ssa.Parameter]bool {
+	out := map[*ssa.Parameter]bool{}
+	if v == nil || depth > 4 {
+		return out
+	}
+	seen := map[ssa.Value]bool{}
+	var walk func(x ssa.Value)
+	walk = func(x ssa.Value) {
+		if x == nil || seen[x] {
+			return
+		}
+		seen[x] = true
+		switch t := x.(type) {
+		case *ssa.Parameter:
+			out[t] = true
+		case *ssa.Call:
+			callee := t.Call.StaticCallee()
+			if callee != nil && len(callee.Blocks) > 0 && core.InRepo(callee) {
+				used := map[*ssa.Parameter]bool{}
+				for _, r := range core.Returns(callee) {
+					for _, res := range r.Results {
+						for p := range paramDeps(res, depth+1) {
+							used[p] = true
+						}
+					}
+				}
+				for i, a := range t.Call.Args {
+					if i < len(callee.Params) && used[callee.Params[i]] {
+						walk(a)
+					}
+				}
+				return
+			}
+			if t.Call.IsInvoke() {
+				walk(t.Call.Value)
+			}
+			for _, a := range t.Call.Args {
+				walk(a)
+			}
+		default:
+			if in, ok := x.(ssa.Instruction); ok {
+				for _, op := range in.Operands(nil) {
+					if op != nil && *op != nil {
+						walk(*op)
+					}
+				}
+			}
+			// values stored into a local array/alloc that x slices (varargs)
+			if al, ok := x.(*ssa.Alloc); ok && al.Referrers() != nil {
+				for _, r := range *al.Referrers() {
+					switch rr := r.(type) {
+					case *ssa.Store:
+						walk(rr.Val)
+					case *ssa.IndexAddr:
+						if rr.Referrers() != nil {
+							for _, r2 := range *rr.Referrers() {
+								if st, ok := r2.(*ssa.Store); ok {
+									walk(st.Val)
+								}
+							}
+						}
+					}
+				}
+			}
+		}
+	}
+	walk(v)
+	return out
 }
